@@ -10,6 +10,27 @@ claim("C19",
       "ranges tile the columns. Value-level exactness of selected contents is not decided.",
       NOTE, "DESIGN.md section 2, C19")
 
+claim("C05",
+      "AST/CFG cache-freshness (stamp) analysis, def-use of weights, threshold/sort-order extraction, clone agreement",
+      "Static: source fields of SplitDistribution are written only by the counting/merging functions which advance the stamp source; "
+      "derived tables are served only through getters that test None/stamp; the same local feeds weight sum and counts; consensus keeps "
+      "freq >= min_freq, sorts descending with the split as tie-break, propagates rooting; maximum-credibility functions restore and "
+      "annotate the tree at the index their own scorer reports. Frequencies, maximality and summary numbers are not decided.",
+      NOTE, "DESIGN.md section 2, C05")
+claim("C06",
+      "parallel-list pairing on the CFG, accumulate-vs-merge field-set agreement, emptiness-guard reachability, worker-protocol must-pass-through",
+      "Static: the four per-tree lists of TreeArray change length together on every path; every field accumulated per tree is merged by "
+      "update/extend; a rooting rejection is unreachable unless both operands are known non-empty; the consensus order is a total order "
+      "independent of arrival; every non-killed exit of the sumtrees worker puts a result and the collation loop merges exactly "
+      "num_processes results through update() with agreeing settings. Equality of the resulting summaries is not decided.",
+      NOTE, "DESIGN.md section 2, C06")
+claim("C08",
+      "unused-parameter/forwarding analysis, taint-based no-write-to-source effect analysis, def-use of the removed-node list, flag-gated CFG paths",
+      "Static: every documented parameter of the pruning/extraction family is read; extraction has no store/mutator rooted at the source; "
+      "the returned removed-node list is fed by exactly the per-round removal lists; unifurcation suppression runs iff the flag is truthy; "
+      "the thin clone copies only label, taxon, edge length/label and the back-reference. Equality with the induced subtree is not decided.",
+      NOTE, "DESIGN.md section 2, C08")
+
 _PENDING = "rule module not yet built in this session (claimed in DESIGN.md; will move to checks when the rule lands)"
 for _p in ["C01","C02","C03","C04","C05","C06","C07","C08","C09","C10","C11","C12","C13","C15","C16","C18","C20"]:
     if _p not in CLAIMED:
